@@ -20,6 +20,12 @@ The definitions are in `Lemmas/C20E2E.lean`:
   replaced by `d'` (nothing else changes; a state in which `p` is resolved is not changed at all);
 * `mapO f o` – the outcome `o` with `f` applied to the final state of an accepted build.
 
+Contents: the general congruence (`rewrite_congruence`, and two conditional forms); the rewrites
+(a) implicit enum value and (d) natural vftable index – unconditional, via `BuildEquiv`; (b) natural
+size – for accepted cases, side condition on the final registry; (c) explicit address – side condition on
+every visited state, with a kernel-checked witness (`explicit_address_final_state_refuted`) that the
+final state alone is not enough; (e) reordering the definitions of a module; concrete examples.
+
 The core is a simulation: `add_module` puts the two cases into states related by `swapS`; every attempt
 keeps the relation (every other item reads only *resolved* information of the replaced item, which is the
 same on both sides; while it is unresolved both sides see "unresolved"); the loop tests, the
@@ -118,8 +124,8 @@ where the build can ask to be retried), a failure cannot occur, and the one succ
 value found in the final registry, whose size is `N`. -/
 
 /-- **a natural size, end to end**: for every accepted case `c` in which the type at `p` (without a
-    `#[size]` attribute) resolves to size `N`, the case `c'` with `#[size(N)]` added to that type has the
-    same run (the very same final state), the same O2 and the same O3 -/
+    `#[size]` attribute) resolves to size `N`, the case `c'` with `#[size(N)]` added to that type is accepted
+    too and has the same O2 and the same O3 -/
 theorem natural_size_e2e (c c' : Case) (p : Path) (d : G.Item) (td : G.TypeDef) (N : Nat)
     (hd : d.inner = .type td) (hns : NoSizeAttr td)
     (h : ReplacedDef c c' p d (sizeRewrite d td N))
@@ -127,6 +133,15 @@ theorem natural_size_e2e (c c' : Case) (p : Path) (d : G.Item) (td : G.TypeDef) 
     (hsz : ∃ i r, sf.reg.get p = some i ∧ i.state = .res r ∧ r.size = N) :
     c'.o2 = c.o2 ∧ c'.o3 = c.o3 :=
   obs_of_run (natural_size_run c c' p d td N hd hns h sf hrun hsz)
+
+/-- … in fact the same run, up to the definition stored in the registry entry while it is unresolved -/
+theorem natural_size_e2e_run (c c' : Case) (p : Path) (d : G.Item) (td : G.TypeDef) (N : Nat)
+    (hd : d.inner = .type td) (hns : NoSizeAttr td)
+    (h : ReplacedDef c c' p d (sizeRewrite d td N))
+    (sf : State) (hrun : c.run = .ok sf)
+    (hsz : ∃ i r, sf.reg.get p = some i ∧ i.state = .res r ∧ r.size = N) :
+    c'.run = mapO (swapS p d (sizeRewrite d td N)) c.run :=
+  natural_size_run c c' p d td N hd hns h sf hrun hsz
 
 /-- `NoSizeAttr`, syntactically -/
 theorem noSizeAttr_of_no_size_attribute (td : G.TypeDef) (h : ∀ a ∈ td.attrs, ∀ args, a ≠ .fn "size" args) :
@@ -141,7 +156,8 @@ placement loop over the fields before the rewritten one, and with the address wr
 different from `A` *in that state* is an error ("attempted to insert padding, but overlapped with
 existing region") or inserts padding.  The offset in an earlier state can differ from the final one,
 because name lookup is not stable while generated vftable items are still being registered (a field type
-`FooVftable` can resolve to `b::FooVftable` in round 1 and to the generated `a::FooVftable` in round 2).
+`FooVftable` can resolve to `b::FooVftable` in round 1 and to the generated `a::FooVftable` in round 2):
+`explicit_address_final_state_refuted` at the end of this file is a kernel-checked witness.
 So the side condition is about every state the run can visit: `naturalOffset s p vis td k` is the offset at
 which the placement loop arrives at the `k`-th pending field in state `s`, if it gets there. -/
 
@@ -172,6 +188,24 @@ theorem explicit_address_build (s : State) (path : Path) (vis : Vis) (td : G.Typ
 theorem noAddrAttr_of_no_address_attribute (st : G.Stmt) (h : ∀ a ∈ st.attrs, ∀ args, a ≠ .fn "address" args) :
     NoAddrAttr st :=
   noAddrAttr_of_attrs st h
+
+/-! ## (e) reordering the definitions of a module
+
+`ReorderedDefs c c'` – case `c'` is case `c` with the `defs` list of one AST module permuted.  The two
+initial states differ in the order of the registry entries and of the modules' definition paths
+(`PermS`); every attempt keeps that relation (lookups are by key, the worklist of a round is sorted,
+`Lemmas/C20.lean: unresolved_order_lem`), and the backend lists a module's items sorted by path
+(`reorder_definitions`), so the files are equal.  `add_module` itself is order independent because the
+only way the definitions loop can fail is the one message "item is defined more than once". -/
+
+/-- **reordering the definitions of a module, end to end**: the two cases have the same outcome – the same
+    failure, or two accepted states that differ only in the order of registry entries and definition paths
+    (`PermS`) – hence the same O2 and the same O3 -/
+theorem reorder_definitions_e2e (c c' : Case) (h : ReorderedDefs c c') : c'.o2 = c.o2 ∧ c'.o3 = c.o3 :=
+  ⟨reorder_definitions_o2 c c' h, reorder_definitions_o3 c c' h⟩
+
+theorem reorder_definitions_run (c c' : Case) (h : ReorderedDefs c c') : RelO PermS c.run c'.run :=
+  run_reordered c c' h
 
 /-! ## non-vacuity: the enum rewrite on a concrete case
 
@@ -227,6 +261,264 @@ theorem both_accepted : C09.isOkB case.run = true ∧ C09.isOkB case'.run = true
   rw [h, hs]
   rfl
 
+/-! the size rewrite on the same case: `pub type B { pub a: A, pub n: u64 }` resolves to 24 bytes (it needs
+`A` = 16 and `Kind` = 4 from the other module, and three rounds); `#[size(24)]` on it changes nothing -/
+
+/-- the side condition of `natural_size_e2e`, in checkable form -/
+theorem size_side_condition (r : Registry) (p : Path) (N : Nat)
+    (h : (r.get p).bind (fun i => i.resolved?.map (·.size)) = some N) :
+    ∃ i res, r.get p = some i ∧ i.state = .res res ∧ res.size = N := by
+  cases hg : r.get p with
+  | none => rw [hg] at h; cases h
+  | some i =>
+    rw [hg] at h
+    simp only [Option.bind_some, ItemDef.resolved?] at h
+    cases hs : i.state with
+    | unres d => rw [hs] at h; cases h
+    | res res =>
+      rw [hs] at h
+      simp only [Option.map_some, Option.some.injEq] at h
+      exact ⟨i, res, rfl, hs, h⟩
+
+def typeB : G.TypeDef :=
+  { stmts := [{ field := .field .pub "a" (.ident "A"), attrs := [] },
+              { field := .field .pub "n" (.ident "u64"), attrs := [] }],
+    attrs := [] }
+
+def itemB : G.Item := { vis := .pub, name := "B", inner := .type typeB }
+
+/-- `#[size(24)] pub type B { .. }` -/
+def itemB' : G.Item := sizeRewrite itemB typeB 24
+
+def caseSized : Case :=
+  { case with modules := case.modules.set 1 (.ast ["b"] "b.pyxis" { modB with defs := modB.defs.set 0 itemB' }) }
+
+theorem replacedB : ReplacedDef case caseSized ["b", "B"] itemB itemB' :=
+  ⟨1, 0, ["b"], "b.pyxis", modB, rfl, rfl, rfl, rfl⟩
+
+/-- the modules after the extern-value pass -/
+def msFin : List (Path × Mod) :=
+  match Res.mapM' (xvalPass s3.reg) s3.modules with | .ok ms => ms | _ => []
+
+theorem xvals_ok : Res.mapM' (xvalPass s3.reg) s3.modules = .ok msFin := by
+  have h : (Res.mapM' (xvalPass s3.reg) s3.modules).isOk = true := by decide +kernel
+  unfold msFin
+  cases hx : Res.mapM' (xvalPass s3.reg) s3.modules with
+  | ok ms => rfl
+  | defer => rw [hx] at h; cases h
+  | err m => rw [hx] at h; cases h
+  | panic m => rw [hx] at h; cases h
+
+/-- the final state of the accepted build -/
+def sFin : State := { s3 with modules := msFin }
+
+theorem run_eq : case.run = .ok sFin := by
+  unfold Case.run
+  rw [init]
+  simp only []
+  rw [build_eq, (by decide +kernel : (s0.reg.types.filter fun e => !e.2.isResolved).length = 3), loop]
+  unfold buildFinish
+  simp only [xvals_ok]
+  rfl
+
+theorem same_output_sized : caseSized.o2 = case.o2 ∧ caseSized.o3 = case.o3 :=
+  natural_size_e2e case caseSized ["b", "B"] itemB typeB 24 rfl
+    (noSizeAttr_of_attrs typeB (fun a ha => by cases ha)) replacedB sFin run_eq
+    (size_side_condition sFin.reg ["b", "B"] 24 (by decide +kernel))
+
+/-! the definitions of module `a` in the other order (`A` before `Kind`) -/
+
+def caseRev : Case :=
+  { case with modules := case.modules.set 0 (.ast ["a"] "a.pyxis" { modA with defs := modA.defs.reverse }) }
+
+theorem reordered : ReorderedDefs case caseRev :=
+  ⟨0, ["a"], "a.pyxis", modA, modA.defs.reverse, rfl, List.reverse_perm _, rfl⟩
+
+example : caseRev.o2 = case.o2 ∧ caseRev.o3 = case.o3 := reorder_definitions_e2e case caseRev reordered
+
 end Example
+
+/-! ## (c) the side condition cannot be weakened to the final state: a kernel-checked witness
+
+Four modules, pointer width 8:
+
+```text
+// d.pyxis                 // a.pyxis                          // b.pyxis
+pub type Late { pub v: u32 }   pub type Foo { vftable { pub fn f(&self); } }   pub type FooVftable { pub x: u64, pub y: u64 }
+
+// c.pyxis
+use b::FooVftable; use a::FooVftable; use d::Late;
+pub type T { pub x: FooVftable, pub y: u32, pub z: Late }
+```
+
+with the priority `b::FooVftable, c::T, a::Foo, d::Late`.  In round 1 `T` is attempted when the generated
+`a::FooVftable` does not exist yet: `x: FooVftable` is `b::FooVftable` (16 bytes), `y` would be at offset 16,
+and `z: Late` is not resolved, so `T` is retried.  `a::Foo` then registers `a::FooVftable` (8 bytes), which the
+second `use` makes the meaning of `FooVftable` in `c`; in round 2 `T` resolves with `y` at offset 8.  The case is
+accepted, and in its final state the natural offset of `y` is 8.  With `#[address(8)] pub y: u32` the first
+attempt of `T` fails instead of being retried ("attempted to insert padding, but overlapped with existing
+region"): the rewritten case is rejected.  So "the field is at `A` in the accepted build" does not make
+`#[address(A)]` redundant; `explicit_address_e2e` asks for the offset in every visited state. -/
+namespace Witness
+
+def modD : G.Module :=
+  { defs := [{ vis := .pub, name := "Late",
+               inner := .type { stmts := [{ field := .field .pub "v" (.ident "u32"), attrs := [] }], attrs := [] } }] }
+
+def fnF : G.Func := { vis := .pub, name := "f", attrs := [], args := [.constSelf], ret := none }
+
+def modA : G.Module :=
+  { defs := [{ vis := .pub, name := "Foo",
+               inner := .type { stmts := [{ field := .vftable [fnF], attrs := [] }], attrs := [] } }] }
+
+def stX : G.Stmt := { field := .field .pub "x" (.ident "FooVftable"), attrs := [] }
+def stY : G.Stmt := { field := .field .pub "y" (.ident "u32"), attrs := [] }
+def stZ : G.Stmt := { field := .field .pub "z" (.ident "Late"), attrs := [] }
+
+def tdT : G.TypeDef := { stmts := [stX, stY, stZ], attrs := [] }
+
+def itemT : G.Item := { vis := .pub, name := "T", inner := .type tdT }
+
+def modC : G.Module :=
+  { uses := [["b", "FooVftable"], ["a", "FooVftable"], ["d", "Late"]], defs := [itemT] }
+
+def modB : G.Module :=
+  { defs := [{ vis := .pub, name := "FooVftable",
+               inner := .type { stmts := [{ field := .field .pub "x" (.ident "u64"), attrs := [] },
+                                          { field := .field .pub "y" (.ident "u64"), attrs := [] }], attrs := [] } }] }
+
+def case : Case :=
+  { id := "c20-address", ps := 8, prio := [["b", "FooVftable"], ["c", "T"], ["a", "Foo"], ["d", "Late"]],
+    modules := [.ast ["d"] "d.pyxis" modD, .ast ["a"] "a.pyxis" modA, .ast ["c"] "c.pyxis" modC,
+                .ast ["b"] "b.pyxis" modB], extras := [] }
+
+/-- `T` with `#[address(8)]` on `y` -/
+def itemT' : G.Item := addrRewrite itemT tdT [stX] [stZ] stY 8
+
+def case' : Case :=
+  { case with modules := case.modules.set 2 (.ast ["c"] "c.pyxis" { modC with defs := modC.defs.set 0 itemT' }) }
+
+theorem replaced : ReplacedDef case case' ["c", "T"] itemT itemT' :=
+  ⟨2, 0, ["c"], "c.pyxis", modC, rfl, rfl, rfl, rfl⟩
+
+theorem noAddr : NoAddrAttr stY := noAddrAttr_of_attrs stY (fun a ha => by cases ha)
+
+/-! ### the original case is accepted -/
+
+def s0 : State := C12.stateOf case.initialState
+def round1 : List Path := [["b", "FooVftable"], ["c", "T"], ["a", "Foo"], ["d", "Late"]]
+def s1 : State := (runRound s0 round1).1
+def s2 : State := (runRound s1 [["c", "T"]]).1
+
+theorem init : case.initialState = .ok s0 := C12.eq_ok_stateOf _ (by decide +kernel)
+
+theorem u0 : s0.reg.unresolved case.prio = round1 :=
+  C09.unresolved_of_sorted _ _ _ (by decide +kernel) (by decide +kernel)
+theorem u1 : s1.reg.unresolved case.prio = [["c", "T"]] :=
+  C09.unresolved_of_sorted _ _ _ (by decide +kernel) (by decide +kernel)
+theorem u2 : s2.reg.unresolved case.prio = [] :=
+  C09.unresolved_of_sorted _ _ _ (by decide +kernel) (by decide +kernel)
+
+theorem r0 : runRound s0 round1 = (s1, .ok ()) := by
+  have : (runRound s0 round1).2 = .ok () := by decide +kernel
+  rw [← this]; rfl
+theorem r1 : runRound s1 [["c", "T"]] = (s2, .ok ()) := by
+  have : (runRound s1 [["c", "T"]]).2 = .ok () := by decide +kernel
+  rw [← this]; rfl
+
+theorem loop : resolveLoop case.prio 10 s0 = .ok s2 := by
+  rw [C09.resolveLoop_step _ 9 s0 s1 _ u0 rfl r0 (by rw [u1]; decide +kernel),
+      C09.resolveLoop_step _ 8 s1 s2 _ u1 rfl r1 (by rw [u2]; decide +kernel),
+      C09.resolveLoop_done _ 7 s2 u2]
+
+/-- the modules after the extern-value pass -/
+def msFin : List (Path × Mod) :=
+  match Res.mapM' (xvalPass s2.reg) s2.modules with | .ok ms => ms | _ => []
+
+theorem xvals_ok : Res.mapM' (xvalPass s2.reg) s2.modules = .ok msFin := by
+  have h : (Res.mapM' (xvalPass s2.reg) s2.modules).isOk = true := by decide +kernel
+  unfold msFin
+  cases hx : Res.mapM' (xvalPass s2.reg) s2.modules with
+  | ok ms => rfl
+  | defer => rw [hx] at h; cases h
+  | err m => rw [hx] at h; cases h
+  | panic m => rw [hx] at h; cases h
+
+/-- the final state of the accepted build -/
+def sFin : State := { s2 with modules := msFin }
+
+theorem run_ok : case.run = .ok sFin := by
+  unfold Case.run
+  rw [init]
+  simp only []
+  rw [build_eq, (by decide +kernel : (s0.reg.types.filter fun e => !e.2.isResolved).length = 4), loop]
+  unfold buildFinish
+  simp only [xvals_ok]
+  rfl
+
+/-- in the final state the placement loop reaches `y` (pending field 1) at offset 8 … -/
+theorem final_offset : naturalOffset sFin ["c", "T"] itemT.vis tdT ([stX].filter C01.isFieldStmt).length = some 8 := by
+  decide +kernel
+
+/-- … but in the state in which `T` is first attempted (after `b::FooVftable`), at offset 16 -/
+theorem first_offset : naturalOffset (attemptItem s0 ["b", "FooVftable"]).1 ["c", "T"] itemT.vis tdT
+    ([stX].filter C01.isFieldStmt).length = some 16 := by
+  decide +kernel
+
+/-! ### the rewritten case is rejected -/
+
+def s0' : State := C12.stateOf case'.initialState
+
+theorem init' : case'.initialState = .ok s0' := C12.eq_ok_stateOf _ (by decide +kernel)
+
+theorem u0' : s0'.reg.unresolved case'.prio = round1 :=
+  C09.unresolved_of_sorted _ _ _ (by decide +kernel) (by decide +kernel)
+
+theorem r0' : (runRound s0' round1).2 = .err "attempted to insert padding, but overlapped with existing region" := by
+  decide +kernel
+
+theorem run_err : case'.run = .err "attempted to insert padding, but overlapped with existing region" := by
+  unfold Case.run
+  rw [init']
+  simp only []
+  rw [build_eq]
+  have hl : ∀ n, resolveLoop case'.prio (n + 1) s0'
+      = .err "attempted to insert padding, but overlapped with existing region" := by
+    intro n
+    unfold resolveLoop
+    simp only [u0']
+    have hr := r0'
+    cases hx : runRound s0' round1 with
+    | mk t res =>
+      rw [hx] at hr
+      simp only [] at hr
+      subst hr
+      rfl
+  rw [show 2 * (s0'.reg.types.filter fun e => !e.2.isResolved).length + 2
+        = (2 * (s0'.reg.types.filter fun e => !e.2.isResolved).length + 1) + 1 from rfl, hl]
+  rfl
+
+/-- the two cases do not have the same output: one is accepted, the other is rejected -/
+theorem outputs_differ : case'.o3 ≠ case.o3 := by
+  rw [o3_eq, o3_eq, run_ok, run_err]
+  intro h
+  simp [o3Of, Sexp.mk] at h
+
+end Witness
+
+/-- **refuted**: the statement of `explicit_address_e2e` with the side condition weakened to "the case is
+    accepted and in its final state the field is at offset `A`" is false -/
+theorem explicit_address_final_state_refuted :
+    ¬ (∀ (c c' : Case) (p : Path) (d : G.Item) (td : G.TypeDef) (spre spost : List G.Stmt) (st : G.Stmt)
+        (fvis : G.Vis) (name : String) (ty : G.Ty) (A : Nat) (sf : State),
+        d.inner = .type td → td.stmts = spre ++ st :: spost → st.field = .field fvis name ty → NoAddrAttr st →
+        ReplacedDef c c' p d (addrRewrite d td spre spost st A) → c.run = .ok sf →
+        naturalOffset sf p d.vis td (spre.filter C01.isFieldStmt).length = some A →
+        c'.o3 = c.o3) := by
+  intro h
+  exact Witness.outputs_differ
+    (h Witness.case Witness.case' ["c", "T"] Witness.itemT Witness.tdT [Witness.stX] [Witness.stZ] Witness.stY
+      .pub "y" (.ident "u32") 8 Witness.sFin rfl rfl rfl Witness.noAddr Witness.replaced Witness.run_ok
+      Witness.final_offset)
 
 end PyxisVerif.C20
